@@ -56,7 +56,10 @@ static void gran_reset(void) { for (uint32_t i = 0; i < ngused; i++) memset(&G[g
 /* ------------------------------------------------------------ scheduler */
 static inline int is_shared(uintptr_t a) { return (a >= a_lo && a < a_hi) || (a >= b_lo && a < b_hi) || (a >= d_lo && a < d_hi); }
 
+void (*vf_access_observer)(const void *addr, size_t n, int is_write);
+
 static void point(const void *addr, size_t n, int is_write, void *pc) {
+    if (vf_access_observer) vf_access_observer(addr, n, is_write);
     if (cur < 0) return;
     uintptr_t a = (uintptr_t)addr;
     if (!is_shared(a)) return;
